@@ -47,6 +47,9 @@ pub enum RealResp {
     JsText(String),
     /// the whole RESULT text (stream `emit-concrete`, op `Y`)
     ResText(String),
+    /// trailing element (after the answers of the calls): blocks the history allocated that are still live after its
+    /// loader instance is gone (checking allocator, c19/checkalloc.rs)
+    Leak(String),
 }
 
 impl RealResp {
@@ -82,6 +85,7 @@ impl RealResp {
             RealResp::Cfg(b) => json!(["cfg", b]),
             RealResp::JsText(t) => json!(["jst", t]),
             RealResp::ResText(t) => json!(["rest", t]),
+            RealResp::Leak(t) => json!(["leak", t]),
         }
     }
     pub fn is_trap(&self) -> bool {
@@ -99,6 +103,11 @@ pub struct PoolStats {
     pub spawned: u64,
     pub lencap_checks: u64,
     pub lencap_violations: u64,
+    pub alloc_checked_frees: u64,
+    pub alloc_leak_checks: u64,
+    pub alloc_leak_reruns: u64,
+    pub alloc_string_headers: u64,
+    pub alloc_table_overflows: u64,
 }
 
 impl PoolStats {
@@ -111,6 +120,11 @@ impl PoolStats {
         self.spawned += o.spawned;
         self.lencap_checks += o.lencap_checks;
         self.lencap_violations += o.lencap_violations;
+        self.alloc_checked_frees += o.alloc_checked_frees;
+        self.alloc_leak_checks += o.alloc_leak_checks;
+        self.alloc_leak_reruns += o.alloc_leak_reruns;
+        self.alloc_string_headers += o.alloc_string_headers;
+        self.alloc_table_overflows += o.alloc_table_overflows;
     }
 }
 
@@ -124,6 +138,10 @@ enum Line {
     R(RealResp),
     E,
     P(String),
+    /// `a alloc-violation kind=…`: the checking allocator's last words
+    A(String),
+    /// `k {…}`: leak report of the history just run
+    K(String),
     S(Value),
     Eof,
     Timeout,
@@ -201,6 +219,8 @@ impl Worker {
                     "r" => Line::R(serde_json::from_str::<Value>(rest).map(|v| RealResp::parse(&v)).unwrap_or_else(|_| RealResp::Bad(rest.to_string()))),
                     "e" => Line::E,
                     "p" => Line::P(serde_json::from_str::<String>(rest).unwrap_or_else(|_| rest.to_string())),
+                    "a" => Line::A(rest.to_string()),
+                    "k" => Line::K(rest.to_string()),
                     "s" => Line::S(serde_json::from_str::<Value>(rest).unwrap_or(Value::Null)),
                     _ => Line::R(RealResp::Bad(l.clone())),
                 }
@@ -234,6 +254,11 @@ impl Worker {
                 Line::S(v) => {
                     st.lencap_checks += v["lencap_checks"].as_u64().unwrap_or(0);
                     st.lencap_violations += v["lencap_violations"].as_u64().unwrap_or(0);
+                    st.alloc_checked_frees += v["alloc_checked_frees"].as_u64().unwrap_or(0);
+                    st.alloc_leak_checks += v["alloc_leak_checks"].as_u64().unwrap_or(0);
+                    st.alloc_leak_reruns += v["alloc_leak_reruns"].as_u64().unwrap_or(0);
+                    st.alloc_string_headers += v["alloc_string_headers_not_recorded"].as_u64().unwrap_or(0);
+                    st.alloc_table_overflows += v["alloc_table_overflow"].as_bool().unwrap_or(false) as u64;
                 }
                 Line::Eof => break,
                 Line::Timeout => {
@@ -264,12 +289,16 @@ fn careful_run<H: HistLine>(cfg: &Cfg, h: &H, first_why: &str, st: &mut PoolStat
     w.tx.take(); // close input after the history
     let mut resps = vec![];
     let mut pmsg: Option<String> = None;
+    let mut amsg: Option<String> = None;
+    let mut leak: Option<String> = None;
     let mut timeout = false;
     let mut finished = false;
     loop {
         match w.next_line() {
             Line::R(r) => resps.push(r),
             Line::P(m) => add_panic(&mut pmsg, m),
+            Line::A(m) => amsg = Some(m),
+            Line::K(m) => leak = Some(m),
             Line::E => {
                 finished = true;
                 break;
@@ -286,6 +315,9 @@ fn careful_run<H: HistLine>(cfg: &Cfg, h: &H, first_why: &str, st: &mut PoolStat
         // did not die this time (would be a non-deterministic death): report what it answered
         st.careful_survived += 1;
         w.shutdown(st);
+        if let Some(l) = leak {
+            resps.push(RealResp::Leak(l));
+        }
         return resps;
     }
     if timeout {
@@ -294,6 +326,9 @@ fn careful_run<H: HistLine>(cfg: &Cfg, h: &H, first_why: &str, st: &mut PoolStat
     let status = w.reap(timeout);
     let at = resps.len();
     let mut why = String::new();
+    if let Some(m) = amsg {
+        why.push_str(&format!("{m}; "));
+    }
     if let Some(m) = pmsg {
         why.push_str(&format!("panic: {m}; "));
     }
@@ -331,13 +366,16 @@ fn run_slice<H: HistLine>(slot: &mut Option<Worker>, cfg: &Cfg, hs: &[H], st: &m
         w.send(text);
         let mut died: Option<(usize, Option<String>, bool)> = None;
         'hist: for j in i..end {
-            let mut resps = Vec::with_capacity(hs[j].n_calls());
+            let mut resps = Vec::with_capacity(hs[j].n_calls() + 1);
             let mut pmsg = None;
+            let mut leak: Option<String> = None;
             loop {
                 match w.next_line() {
                     Line::R(r) => resps.push(r),
                     Line::E => break,
                     Line::P(m) => add_panic(&mut pmsg, m),
+                    Line::A(m) => add_panic(&mut pmsg, m),
+                    Line::K(m) => leak = Some(m),
                     Line::S(_) => {}
                     Line::Eof => {
                         died = Some((j, pmsg, false));
@@ -350,6 +388,9 @@ fn run_slice<H: HistLine>(slot: &mut Option<Worker>, cfg: &Cfg, hs: &[H], st: &m
                 }
             }
             st.histories += 1;
+            if let Some(l) = leak {
+                resps.push(RealResp::Leak(l));
+            }
             out.push(resps);
         }
         match died {
